@@ -113,11 +113,13 @@ pub fn one_point_to(which: &str, cache: &RefCache, mg: &MoveGenerator, rep: &Rep
         let mut rep_changed = None;
         for n in ns {
             s.find_best_move(b, d, Some(Duration::from_millis(*n)));
-            if crate::timer::verif::first_stop().is_some() {
-                // under the node clock the deadline falls exactly at node n: everything
-                // visited beyond it is work done after the budget expired
+            // under the node clock the deadline falls exactly at node n: everything visited
+            // beyond it is work done after the budget expired -- whether or not the search ever
+            // asked the clock (a search that stops consulting it must not look punctual)
+            let visited = s.verif_nodes();
+            if crate::timer::verif::first_stop().is_some() || visited > (*n).max(1) {
                 hit = true;
-                worst_overrun = worst_overrun.max(s.verif_nodes().saturating_sub((*n).max(1)));
+                worst_overrun = worst_overrun.max(visited.saturating_sub((*n).max(1)));
             }
             if s.verif_repetition_len() != rep0 && rep_changed.is_none() {
                 rep_changed = Some((*n, s.verif_repetition_len()));
@@ -151,7 +153,7 @@ pub fn one_point_to(which: &str, cache: &RefCache, mg: &MoveGenerator, rep: &Rep
                         J::Null,
                     );
                 }
-                if let Some((score, mv)) = fin.filter(|_| fd == d || deeper == 0) {
+                if let Some((score, mv)) = fin.filter(|_| (fd == d && d <= 3) || deeper == 0) {
                     if let Err(text) = compare(cache, mg, b, fd, score, mv) {
                         rep.violation(
                             format!("C06 fen={} depth={} final-depth={} value-after-interruption", fen, d, fd),
@@ -222,6 +224,195 @@ pub fn history_point(rep: &Report, mg: &MoveGenerator, name: &str, fen: &str, b:
     }
 }
 
+
+// ---------------------------------------------------------------------------------------------
+// C07, command level: `go` histories through the real command handler. The sweeps above call
+// find_best_move directly; a deadline can also be lost between the command parser and the
+// search (a token that switches the clock off, a limit kept from an earlier `go`). Every `go`
+// that carries a time budget must finish within budget + OVERRUN_LIMIT nodes of the node clock,
+// whatever else the command says and whatever an earlier command of the session said.
+
+/// Positions on which an unbudgeted shallow search terminates quickly
+pub const GO_NORMAL_POSITIONS: &[(&str, &str)] = &[
+    ("start position", "position startpos"),
+    ("K+P v k", "position fen 8/8/4k3/8/8/4K3/4P3/8 w - - 0 1"),
+    ("blocked pawn chains (fortress)", "position fen 8/8/4k3/p2p2p1/P2P2P1/4K3/8/8 w - - 0 1"),
+    ("italian middlegame after two moves", "position fen r1bq1rk1/ppp2ppp/2np1n2/2b1p3/2B1P3/2PP1N2/PP3PPP/RNBQ1RK1 w - - 0 7 moves b1d2 a7a6"),
+];
+
+/// First command of a history (sets whatever state a `go` can leave behind); each terminates on
+/// the normal positions. Tokens are the standard ones of the UCI `go` command.
+pub const GO_SETTERS: &[&str] = &[
+    "go depth 2",
+    "go depth 3 nodes 500000",
+    "go nodes 100 depth 3",
+    "go depth 2 mate 3",
+    "go depth 2 movestogo 20",
+    "go infinite depth 2",
+    "go ponder depth 2",
+];
+
+/// (command, budget in ms if it is a movetime; None = read the budget the engine derived from the clocks)
+pub const GO_BUDGETED: &[(&str, Option<u64>)] = &[
+    ("go movetime 0", Some(0)),
+    ("go movetime 30", Some(30)),
+    ("go movetime 400", Some(400)),
+    ("go movetime 3000", Some(3000)),
+    ("go movetime 50 nodes 1000000", Some(50)),
+    ("go nodes 1000000 movetime 50", Some(50)),
+    ("go depth 40 movetime 60", Some(60)),
+    ("go mate 5 movetime 45", Some(45)),
+    ("go movestogo 10 movetime 35", Some(35)),
+    ("go wtime 6000 btime 6000 winc 0 binc 0", None),
+    ("go wtime 30000 btime 30000 winc 500 binc 500 movestogo 20", None),
+];
+
+/// Only where a search of that size is cheap (not on the explosion positions' cap)
+pub const GO_LONG_BUDGET: (&str, Option<u64>) = ("go movetime 20000", Some(20000));
+
+fn explosion_command(fen: &str) -> String {
+    format!("position fen {}", fen)
+}
+
+/// Runs one history on a fresh engine; every budgeted `go` in it is judged. Returns
+/// (budgeted gos judged, of which the deadline fell inside the search, max overrun).
+pub fn go_history(rep: &Report, cmds: &[(String, Option<Option<u64>>)]) -> (u64, u64, u64) {
+    if rep.violation_count.load(Ordering::Relaxed) >= 5 {
+        return (0, 0, 0);
+    }
+    crate::timer::verif::set_node_clock(Some(1));
+    let text = cmds.iter().map(|c| c.0.clone()).collect::<Vec<_>>().join(" | ");
+    let args = vec!["c07-go".to_string(), "--cmds".into(), cmds.iter().map(|c| c.0.clone()).collect::<Vec<_>>().join("|")];
+    let _job = crate::watch::enter(format!("C07 go-history [{}] no-answer", text), format!("[{}]: a go command did not answer within {} s of wall time", text, crate::watch::LIMIT_S), args.clone());
+    let r = guard(|| {
+        let mut fl = crate::uci::Flounder::new();
+        let mut judged = Vec::new();
+        for (c, budget) in cmds {
+            crate::search::verif::set_dry_run(false);
+            fl.verif_handle_command(c);
+            if let Some(b) = budget {
+                let limit = match b {
+                    Some(ms) => Some(*ms),
+                    None => crate::search::verif::last_go().and_then(|(_, t)| t).map(|d| d.as_millis() as u64),
+                };
+                judged.push((c.clone(), limit, fl.verif_searcher().verif_nodes()));
+            }
+        }
+        judged
+    });
+    match r {
+        Err(e) => {
+            rep.violation(format!("C07 go-history [{}] panic", text), format!("[{}]: {}", text, e), args, J::Null);
+            (0, 0, 0)
+        }
+        Ok(judged) => {
+            let mut hits = 0;
+            let mut worst = 0;
+            for (c, limit, nodes) in &judged {
+                match limit {
+                    None => {
+                        rep.violation(format!("C07 go-history [{}] no-budget", text), format!("[{}]: {:?} carries a clock but the search was started without a time limit", text, c), args.clone(), J::Null);
+                    }
+                    Some(l) => {
+                        let over = nodes.saturating_sub((*l).max(1));
+                        if *nodes >= *l {
+                            hits += 1;
+                        }
+                        worst = worst.max(over);
+                        if over > OVERRUN_LIMIT {
+                            rep.violation(
+                                format!("C07 go-history [{}] overrun", text),
+                                format!("[{}]: {:?} has a budget of {} ms = {} nodes of the node clock, but the search visited {} nodes before answering ({} beyond the deadline, limit {})", text, c, l, l, nodes, over, OVERRUN_LIMIT),
+                                args.clone(),
+                                J::Null,
+                            );
+                        }
+                    }
+                }
+            }
+            (judged.len() as u64, hits, worst)
+        }
+    }
+}
+
+fn go_histories(rep: &Report, thorough: bool) -> J {
+    let mut all_positions: Vec<(String, String, bool)> = GO_NORMAL_POSITIONS.iter().map(|(n, c)| (n.to_string(), c.to_string(), false)).collect();
+    for (n, f) in EXPLOSION_POSITIONS {
+        all_positions.push((n.to_string(), explosion_command(f), true));
+    }
+    let mut hs: Vec<Vec<(String, Option<Option<u64>>)>> = Vec::new();
+    // single budgeted go on a fresh engine
+    for (_, pc, explosive) in &all_positions {
+        for (g, b) in GO_BUDGETED.iter().chain(if *explosive { [].iter() } else { std::slice::from_ref(&GO_LONG_BUDGET).iter() }) {
+            hs.push(vec![(pc.clone(), None), (g.to_string(), Some(*b))]);
+        }
+    }
+    let singles = hs.len();
+    // two commands: any first go on a normal position, then a budgeted go on any position,
+    // with and without ucinewgame in between
+    for (_, pa) in GO_NORMAL_POSITIONS {
+        let firsts: Vec<(String, Option<Option<u64>>)> = GO_SETTERS.iter().map(|g| (g.to_string(), None)).chain(GO_BUDGETED.iter().map(|(g, b)| (g.to_string(), Some(*b)))).collect();
+        for first in &firsts {
+            for (_, pb, _) in &all_positions {
+                for (g, b) in GO_BUDGETED {
+                    for newgame in [false, true] {
+                        if newgame && !thorough && !first.0.contains("nodes") {
+                            continue;
+                        }
+                        let mut h = vec![(pa.to_string(), None), first.clone()];
+                        if newgame {
+                            h.push(("ucinewgame".to_string(), None));
+                        }
+                        h.push((pb.clone(), None));
+                        h.push((g.to_string(), Some(*b)));
+                        hs.push(h);
+                    }
+                }
+            }
+        }
+    }
+    let results: Vec<(u64, u64, u64)> = par_map(&hs, |h| go_history(rep, h));
+    let judged: u64 = results.iter().map(|r| r.0).sum();
+    let hits: u64 = results.iter().map(|r| r.1).sum();
+    let worst: u64 = results.iter().map(|r| r.2).max().unwrap_or(0);
+    eprintln!("[C07] go histories: {} ({} single), {} budgeted gos judged, deadline inside the search in {}, max overrun {} ({:.1}s)", hs.len(), singles, judged, hits, worst, rep.elapsed());
+    J::obj()
+        .set("histories", hs.len())
+        .set("single_command_histories", singles)
+        .set("budgeted_go_commands_judged", judged)
+        .set("deadline_fell_inside_search", hits)
+        .set("max_nodes_after_deadline", worst)
+        .set("positions", all_positions.iter().map(|p| p.1.clone()).collect::<Vec<_>>())
+        .set("first_commands", GO_SETTERS.iter().map(|g| g.to_string()).chain(GO_BUDGETED.iter().map(|g| g.0.to_string())).collect::<Vec<_>>())
+        .set("judged_commands", GO_BUDGETED.iter().map(|g| g.0.to_string()).chain(std::iter::once(GO_LONG_BUDGET.0.to_string())).collect::<Vec<_>>())
+        .set("rule", "history = position A; go a; [ucinewgame]; position B; go b on a fresh engine through the real command handler under the node clock (1 node = 1 ms); A over the normal positions, a over all first commands, B over all positions incl. the quiescence-explosion ones, b over the budgeted commands; every budgeted go must end within budget + limit nodes (budget = the movetime given, or the limit the engine itself derived from the clocks)")
+}
+
+pub fn replay_go(cmds: &str) -> i32 {
+    let rep = Report::new("C07", "quick", 0);
+    crate::watch::start_replay();
+    let all: Vec<(&str, Option<u64>)> = GO_BUDGETED.iter().cloned().chain(std::iter::once(GO_LONG_BUDGET)).collect();
+    let h: Vec<(String, Option<Option<u64>>)> = cmds
+        .split('|')
+        .map(|c| {
+            let c = c.trim().to_string();
+            let b = all.iter().find(|g| g.0 == c).map(|g| g.1);
+            (c, b)
+        })
+        .collect();
+    let r = go_history(&rep, &h);
+    let v = rep.violations.lock().unwrap();
+    for x in v.iter() {
+        println!("REPLAY-VIOLATION {} :: {}", x.sig, x.text);
+    }
+    if v.is_empty() {
+        println!("REPLAY-OK C07 go history: {} budgeted gos, max overrun {}", r.0, r.2);
+        0
+    } else {
+        1
+    }
+}
+
 pub fn run(which: &'static str, tier: &str, seed: u64, out: &str) {
     let rep = Report::new(which, tier, seed);
     let thorough = tier == "thorough";
@@ -260,10 +451,12 @@ pub fn run(which: &'static str, tier: &str, seed: u64, out: &str) {
     let wall_cap = if thorough { 3000.0 } else { 100.0 };
     'outer: for (name, fen) in SWEEP_POSITIONS {
         let b = board(fen);
-        for d in [2u8, 3] {
+        for d in [2u8, 3, 4, 5] {
             if rep.saturated() {
                 break 'outer;
             }
+            // depth 4 and 5: the small searches only (the quick tier keeps them under 2500 nodes)
+            let t_cap = if d >= 4 && !thorough { 2_500 } else { t_cap };
             if rep.elapsed() > wall_cap {
                 rep.cap(format!("wall cap {} s reached before {:?} depth {}", wall_cap, name, d));
                 break 'outer;
@@ -374,9 +567,14 @@ pub fn run(which: &'static str, tier: &str, seed: u64, out: &str) {
             }
         }
     }
+    let mut go_part = J::Null;
+    if which == "C07" && !rep.saturated() {
+        go_part = go_histories(&rep, thorough);
+    }
     let cov = J::obj()
         .set("evaluations", evaluations)
         .set("distinct_nontrivial", nontrivial)
+        .set("go_command_histories", go_part)
         .set("rule", "a case = (position, depth, deadline node N) [C06 also (N1, N2)]: fresh Searcher, search interrupted exactly at node N under the node clock; non-trivial = the deadline actually fell inside the search (should_stop answered true before the search finished)")
         .set("overrun_limit_nodes", OVERRUN_LIMIT)
         .set("max_nodes_after_deadline_seen", max_overrun)
@@ -399,6 +597,7 @@ pub fn run(which: &'static str, tier: &str, seed: u64, out: &str) {
 
 pub fn replay_history(fen: &str, d: u8, at: u64) -> i32 {
     let rep = Report::new("C06", "quick", 0);
+    crate::watch::start_replay();
     let mg = MoveGenerator::new();
     let b = board(&format!("{} 0 1", Pos::from_fen(fen).unwrap().fen4()));
     history_point(&rep, &mg, "replay", &Pos::from_fen(fen).unwrap().fen(0, 1), &b, d, at);
@@ -416,6 +615,7 @@ pub fn replay_history(fen: &str, d: u8, at: u64) -> i32 {
 
 pub fn replay_one(which: &str, fen: &str, d: u8, at: &str, fd: Option<u8>) -> i32 {
     let rep = Report::new(if which == "C06" { "C06" } else { "C07" }, "quick", 0);
+    crate::watch::start_replay();
     let mg = MoveGenerator::new();
     let cache = RefCache::new(200_000);
     let b = board(&format!("{} 0 1", Pos::from_fen(fen).unwrap().fen4()));
